@@ -3,7 +3,7 @@
 set -e
 cd "$(dirname "$0")"
 rm -rf _build && mkdir -p _build
-cp gen/*.ml gen/*.mli conv.ml framework.ml h_*.ml _build/
+cp gen/*.ml gen/*.mli conv.ml floatq.ml framework.ml h_*.ml _build/
 cd _build
 ORDER=$(ocamlfind ocamldep -sort *.mli *.ml)
 cp ../driver.ml .
